@@ -421,6 +421,7 @@ func (r *sessRunner) history(n int, h sessHist) []sessEvent {
 		we := newSessEvent(n, "write")
 		we.File, we.Ext = filepath.Base(out), extName(h.DstExt)
 		var err error
+		prefill(n, out)
 		we.Res, we.Msg = run.Guard(20*time.Second, func() { err = s.Write(out) })
 		if we.Res == "ok" {
 			we.Res = errClass(err)
@@ -463,6 +464,7 @@ func (r *sessRunner) history(n int, h sessHist) []sessEvent {
 			evs = append(evs, ce)
 			return evs
 		}
+		prefill(n, o)
 		cmd := exec.Command(r.cli, args...)
 		var stderr bytes.Buffer
 		cmd.Stderr = &stderr
@@ -513,6 +515,18 @@ func (r *sessRunner) history(n int, h sessHist) []sessEvent {
 		cur, curCues = o, be.Cues
 	}
 	return evs
+}
+
+// prefill: in every other history the destination already exists and holds something longer than anything the
+// history writes (a previous run's output): writing replaces a file, it does not overwrite its beginning
+func prefill(n int, path string) {
+	if n%2 != 0 {
+		return
+	}
+	if _, err := os.Stat(path); err == nil {
+		return
+	}
+	ioutil.WriteFile(path, bytes.Repeat([]byte("what a previous run left in the destination\n"), 3000), 0o644)
 }
 
 // synthDocs: lists whose shape matters to the operations (touching same-text cues, cues out of order, overlapping
